@@ -145,7 +145,7 @@ func c16Fill(d ivg.Destination, fill int, indirect bool, s float32) {
 		// (emit lifts the gate again after the path)
 		d.SetLOD(0, 8.5)
 		if indirect {
-			d.SetCReg(0, false, ivg.PaletteIndexColor(3))
+			d.SetCReg(0, false, ivg.CRegColor(3)) // a register nothing has written since Reset: it holds palette[3]
 		} else {
 			d.SetCReg(0, false, ivg.RGBAColor(c16FlatOpaque))
 		}
@@ -535,7 +535,14 @@ func c16Check(w *mc.W, cs *c16Case) {
 			}
 			im, pix := c16NewImg(cs.Alpha, rect0)
 			var derr error
-			c16Render(im, rect0, op, func(d ivg.Destination) { derr = decode.Decode(d, b) })
+			c16Render(im, rect0, op, func(d ivg.Destination) {
+				if v == 1 {
+					// the suggested entry 1 given again as an option, in another colour model (same colour)
+					derr = decode.Decode(d, b, decode.WithColorAt(1, color.NRGBA{0xff, 0xff, 0xff, 0x80}), decode.WithColorAt(7, color.NRGBA64{0x8080, 0x4040, 0x2020, 0xffff}))
+				} else {
+					derr = decode.Decode(d, b)
+				}
+			})
 			if derr != nil {
 				fail("encoded:error", fmt.Sprintf("Decode of the encoded graphic (indirect=%v) fails: %v", v == 1, derr))
 				return
